@@ -59,13 +59,19 @@ def BOp.arith : BOp → Bool
   | .add | .sub | .mul | .div | .mod => true
   | _ => false
 
+/-- the operators whose method is selected by the argument type: arithmetic ones and `| ^ &` (traits.py:205-208) -/
+def BOp.selects : BOp → Bool
+  | .bor | .bxor | .band => true
+  | op => op.arith
+
 mutual
 /-- expression core; one constructor per node class of syntax/node/definition/{literal,operator,primary,expression}.py -/
 inductive Expr where
   | int (n : Nat)                   -- Integer
   | float (f : Float)               -- Float
   | str (s : Str)                   -- String
-  | true_ | false_ | none_          -- Truthy / Falsy / Null (also the Empty of an omitted slice bound / comprehension condition)
+  | true_ | false_ | none_          -- Truthy / Falsy / Null
+  | empty_                          -- Empty: an omitted slice bound (an omitted comprehension condition is sent as `true_`)
   | var (x : Str)                   -- Var
   | factor (op : UOp) (e : Expr)    -- Factor
   | not_ (e : Expr)                 -- NotCompare
@@ -155,35 +161,39 @@ def propAt (props : Props) (p : Path) : Option Ty := (props.find? (fun e => e.1 
 def templatesOf (props : Props) : List (Path × Str) :=
   props.filterMap fun e => match e.2 with | .tvar n => some (e.1, n) | _ => none
 
-/-- `_normalize_props` (template.py:299-335): leaf paths below the first level; per leaf the attribute indices from the
-    second level on, where the index of a `Union` symbol itself is left out -/
-def normalizeProps (props : Props) : List (Path × List Nat) :=
-  props.filterMap fun e =>
-    let key := e.1
-    if key.length > 1 && e.2.attrs = .nil then
-      let mids := (List.range (key.length - 2)).filterMap fun j =>
-        let b := key.take (j + 2)
-        match propAt props b with
-        | some t => if t.className = s_Union then none else b.getLast?
-        | none => none
-      some (key, mids ++ key.getLast?.toList)
-    else none
+/-- the attribute indices of `key` from the second level on; with `skipUnion` the index of a `Union` symbol itself is left out
+    (template.py:310-320) -/
+def normMids (props : Props) (skipUnion : Bool) (key : Path) : List Nat :=
+  (List.range (key.length - 2)).filterMap fun j =>
+    let b := key.take (j + 2)
+    match propAt props b with
+    | some t => if skipUnion && t.className = s_Union then none else b.getLast?
+    | none => none
 
-/-- `_find_actual_path` (template.py:337-371) -/
+/-- one entry of `_normalize_props`: only leaf paths below the first level are kept (template.py:296-308) -/
+def normEntry (props : Props) (skipUnion : Bool) (e : Path × Ty) : Option (Path × List Nat) :=
+  if e.1.length > 1 && e.2.attrs = .nil then some (e.1, normMids props skipUnion e.1 ++ e.1.getLast?.toList) else none
+
+/-- `_normalize_props` (template.py:284-336); `skipUnion` = the schema side -/
+def normalizeProps (props : Props) (skipUnion : Bool) : List (Path × List Nat) :=
+  props.filterMap (normEntry props skipUnion)
+
+/-- the candidate test of `_find_actual_path` for one normalised actual entry (template.py:357-366) -/
+def hitOf (begin : Path) (n : Nat) (e : Path × List Nat) : Option Path :=
+  if begin.isPrefixOf e.1 then
+    if e.2.length = n then some e.1
+    else if e.2.length > n then some (e.1.take (e.1.length - (e.2.length - n)))
+    else none
+  else none
+
+/-- `_find_actual_path` (template.py:338-372) -/
 def findActualPath (schemaPath : Path) (normSchema normActual : List (Path × List Nat)) (actual : Props) : Option Path :=
   if schemaPath.length = 1 then some schemaPath
   else
-    let begin := schemaPath.take 2
     match (normSchema.find? (fun e => e.1 = schemaPath)).map (·.2) with
     | none => none          -- KeyError in the real code; a template symbol is always a leaf
     | some schemaElems =>
-      let hit := normActual.findSome? fun e =>
-        if begin.isPrefixOf e.1 then
-          if e.2.length = schemaElems.length then some e.1
-          else if e.2.length > schemaElems.length then some (e.1.take (e.1.length - (e.2.length - schemaElems.length)))
-          else none
-        else none
-      match hit with
+      match normActual.findSome? (hitOf (schemaPath.take 2) schemaElems.length) with
       | some p => some p
       | none =>
         let first := schemaPath.take 1
@@ -212,8 +222,9 @@ def updatesFor (tp : Path) (tn : Str) (schemaTemps : List (Path × Str)) (normS 
 
 /-- `make_updates` (template.py:266-297) -/
 def makeUpdates (targets schemaTemps : List (Path × Str)) (schema actual : Props) : List (Path × Path) :=
-  let normS := normalizeProps schema
-  let normA := normalizeProps actual
+  let normS := normalizeProps schema true
+  -- the actual types keep their Union levels (template.py:265-266): a Union actual type is one type
+  let normA := normalizeProps actual false
   targets.foldl (fun acc t => updatesFor t.1 t.2 schemaTemps normS normA actual acc) []
 
 mutual
@@ -271,7 +282,7 @@ def stripNullable : Ty → Ty
     if n0 ≠ n1 then (if n0 then b else a) else .union (.cons a (.cons b .nil))
   | t => t
 
-/-- `OperationTrait.try_operation` (traits.py:178-210). The `inherits` loop (203-208) cannot match for a stub operand. -/
+/-- `OperationTrait.try_operation` (traits.py:178-225). The `inherits` loop (218-223) cannot match for a stub operand. -/
 def tryOp (l : Ty) (op : BOp) (r : Ty) : Option Ty :=
   match lookup op.token Dunder.operators with
   | none => none
@@ -279,7 +290,7 @@ def tryOp (l : Ty) (op : BOp) (r : Ty) : Option Ty :=
     match findMethod l.className d with
     | none => none
     | some m =>
-      if !op.arith then some (returnsOf m l (.cons r .nil))
+      if !op.selects then some (returnsOf m l (.cons r .nil))
       else
         match paramAt0 m l r with
         | none => none
@@ -310,14 +321,13 @@ def dedupPut (acc : List (Str × Ty)) (t : Ty) : List (Str × Ty) :=
 def knownTypes (ts : List Ty) : List Ty :=
   ((ts.filter (fun t => t.className ≠ s_Unknown)).foldl dedupPut []).map (·.2)
 
-/-- `on_list` (reflections.py:666-674). The state is "the library's `Union` symbol already carries attributes":
-    line 674 extends the shared symbol returned by `from_standard(Union)` (no `.stack()`), which succeeds once per
-    session and raises `Errors.Never('Already set attibutes')` (reflection.py:408-409) ever after. -/
+/-- `on_list` (reflections.py:679-688). The `Union` of a heterogeneous literal is a fresh stacked symbol
+    (`from_standard(Union).stack().extends(…)`), so the handler neither reads nor writes the session state `s`. -/
 def onList (ts : List Ty) (s : Bool) : Except Err Ty × Bool :=
   match knownTypes ts with
   | [] => (.ok (.list .unknown), s)
   | [t] => (.ok (.list t), s)
-  | k => if s then (.error .never, s) else (.ok (.list (.union (Tys.ofList k))), true)
+  | k => (.ok (.list (.union (Tys.ofList k))), s)
 
 /-- `on_dict` (reflections.py:676-685) over the `(key, value)` types of the items -/
 def onDict (items : List (Ty × Ty)) : Ty :=
@@ -339,6 +349,39 @@ def onIndex (r : Ty) (k : Expr) : Except Err Ty :=
      | .int n => (match ts.get? n with | some t => .ok t | none => .error .fatal)
      | _ => .ok (.union ts))
   | t => .ok t
+
+def Tys.drop : Tys → Nat → Tys
+  | ts, 0 => ts
+  | .nil, _ + 1 => .nil
+  | .cons _ ts, n + 1 => Tys.drop ts n
+
+def Tys.take : Tys → Nat → Tys
+  | _, 0 => .nil
+  | .nil, _ + 1 => .nil
+  | .cons t ts, n + 1 => .cons t (Tys.take ts n)
+
+/-- Python's `attrs[begin:end]` for non-negative or omitted bounds -/
+def Tys.slice (ts : Tys) (lo hi : Option Nat) : Tys :=
+  let n := ts.length
+  let l := match lo with | some i => min i n | none => 0
+  let h := match hi with | some i => min i n | none => n
+  (ts.drop l).take (h - l)
+
+/-- a slice bound the handler can read: an `Integer` literal or `Empty` (reflections.py:476) -/
+def literalBound : Expr → Option (Option Nat)
+  | .int n => some (some n)
+  | .empty_ => some none
+  | _ => none
+
+/-- `on_indexer`, sliced (reflections.py:472-482): a tuple with literal (or omitted) bounds gives the tuple of the selected
+    elements, everything else the receiver -/
+def onSlice (r : Ty) (lo hi : Expr) : Ty :=
+  match r with
+  | .tuple ts =>
+    (match literalBound lo, literalBound hi with
+     | some l, some h => .tuple (ts.slice l h)
+     | _, _ => .tuple ts)
+  | t => t
 
 /-- `IteratorTrait.iterates` (traits.py:318-343) behind `on_for_in` (reflections.py:558-578) -/
 def iterates (t : Ty) : Except Err Ty :=
@@ -379,19 +422,22 @@ abbrev R (α : Type) := Except Err α × Bool
 
 mutual
 /-- `Reflections.type_of(node)` on an expression node: post-order, children left to right (semantics/procedure.py),
-    then the node's own handler. `s` = the session state described at `onList`. -/
+    then the node's own handler. `s` = the session state ("the library's Union symbol carries attributes"): since 401dc97 no
+    handler reads or writes it (`C03.session_independent`). -/
 def infer (Γ : Env) : Expr → Bool → R Ty
   | .int _, s => (.ok .int, s)                              -- on_integer
   | .float _, s => (.ok .float, s)                          -- on_float
   | .str _, s => (.ok .str, s)                              -- on_string
   | .true_, s => (.ok .bool, s)                             -- on_truthy
   | .false_, s => (.ok .bool, s)                            -- on_falsy
-  | .none_, s => (.ok .none, s)                             -- on_null / on_empty
+  | .none_, s => (.ok .none, s)                             -- on_null
+  | .empty_, s => (.ok .none, s)                            -- on_empty
   | .var x, s =>                                            -- on_var → Reflections.resolve
     (match lookup x Γ with
      | some t => if t = noSuchAttr then (.error .indexErr, s) else (.ok t, s)
      | none => (.error .unresolved, s))
-  | .factor _ e, s => infer Γ e s                           -- on_factor: `return value.stack(node)`
+  | .factor _ e, s =>                                       -- on_factor: bool is promoted to int, else the operand's type
+    (infer Γ e s).bind fun t s => if t = .bool then (.ok .int, s) else (.ok t, s)
   | .not_ e, s => (infer Γ e s).bind fun _ s => (.ok .bool, s)          -- on_not_compare
   | .bin e rest, s =>                                       -- on_sum … on_or_bitwise → each_binary_operator
     (infer Γ e s).bind fun l s =>
@@ -415,7 +461,7 @@ def infer (Γ : Env) : Expr → Bool → R Ty
   | .slice r lo hi, s =>                                    -- on_indexer, `node.sliced`
     (infer Γ r s).bind fun tr s =>
     (infer Γ lo s).bind fun _ s =>
-    (infer Γ hi s).bind fun _ s => (.ok (stripNullable tr), s)
+    (infer Γ hi s).bind fun _ s => (.ok (onSlice (stripNullable tr) lo hi), s)
   | .group e, s => infer Γ e s                              -- on_group
   | .call r m args, s =>                                    -- on_relay (prop_of) then on_func_call
     (infer Γ r s).bind fun tr s =>
